@@ -3,6 +3,7 @@ package c04
 import (
 	"fmt"
 	"math/rand"
+	"net/url"
 	"strings"
 )
 
@@ -77,6 +78,31 @@ func genRequest(r *rand.Rand, cj *caseJSON) {
 			r.Shuffle(len(vs), func(i, j int) { vs[i], vs[j] = vs[j], vs[i] })
 			cj.Post = append(cj.Post, vs[:1+r.Intn(3)]...)
 		}
+	}
+	// one name spelled in 2-3 different percent / plus encodings (and values likewise), within and across GET/POST
+	if r.Intn(4) == 0 {
+		names := []string{"q", "a b", "id[]", "token", "a"}
+		r.Shuffle(len(names), func(i, j int) { names[i], names[j] = names[j], names[i] })
+		var extra [][2]string
+		for _, n := range names[:1+r.Intn(2)] {
+			vals := []string{"ok", "evil", "one two", "attack", "x"}
+			r.Shuffle(len(vals), func(i, j int) { vals[i], vals[j] = vals[j], vals[i] })
+			for k := 0; k < 2+r.Intn(2); k++ {
+				extra = append(extra, [2]string{n, vals[k]})
+			}
+		}
+		switch r.Intn(3) {
+		case 0:
+			cj.Get = append(cj.Get, extra...)
+		case 1:
+			cj.Post = append(cj.Post, extra...)
+		default:
+			cj.Get = append(cj.Get, extra...)
+			r.Shuffle(len(extra), func(i, j int) { extra[i], extra[j] = extra[j], extra[i] })
+			cj.Post = append(cj.Post, extra[:1+r.Intn(len(extra))]...)
+		}
+		cj.GetWire = wireOf(r, cj.Get)
+		cj.PostWire = wireOf(r, cj.Post)
 	}
 	hs := [][2]string{{"X-One", "One"}, {"x-one", "TWO"}, {"Y", "ONE"}, {"X-Attack", "attack"}, {"Z", " x "}, {"y", "5"}}
 	nh := r.Intn(len(hs) + 1)
@@ -317,4 +343,65 @@ func genSens(r *rand.Rand) caseJSON {
 			{ID: 2, Phase: 2, Sev: -1, Head: linkJ{Targets: []targetJ{{Var: "MATCHED_VAR"}}, Op: "streq", Arg: v[1], Acts: []actJ{{"hits", "+1"}}}}}
 	}
 	return cj
+}
+
+// wireOf encodes pairs choosing, per occurrence, one of several equivalent spellings of name and value
+func wireOf(r *rand.Rand, ps [][2]string) string {
+	var parts []string
+	for _, p := range ps {
+		parts = append(parts, spell(r, p[0])+"="+spell(r, p[1]))
+	}
+	return strings.Join(parts, "&")
+}
+
+func rawSafe(c byte) bool {
+	return c >= 'a' && c <= 'z' || c >= 'A' && c <= 'Z' || c >= '0' && c <= '9' || c == '[' || c == ']' || c == '_' || c == '.' || c == '-'
+}
+
+func spell(r *rand.Rand, s string) string {
+	if s == "" {
+		return ""
+	}
+	style := r.Intn(5)
+	var b strings.Builder
+	for i := 0; i < len(s); i++ {
+		c := s[i]
+		pct := func(upper bool) {
+			if upper {
+				fmt.Fprintf(&b, "%%%02X", c)
+			} else {
+				fmt.Fprintf(&b, "%%%02x", c)
+			}
+		}
+		switch style {
+		case 0: // canonical (url.QueryEscape): space as +, brackets escaped
+			b.WriteString(url.QueryEscape(string(c)))
+		case 1: // first byte percent-encoded, the rest raw where possible
+			if i == 0 || !rawSafe(c) {
+				pct(true)
+			} else {
+				b.WriteByte(c)
+			}
+		case 2: // everything percent-encoded, lower-case hex
+			pct(false)
+		case 3: // raw where possible (id[] stays id[]), space as %20
+			if rawSafe(c) {
+				b.WriteByte(c)
+			} else {
+				pct(true)
+			}
+		default: // raw where possible, space as +, last byte percent-encoded
+			switch {
+			case i == len(s)-1:
+				pct(false)
+			case c == ' ':
+				b.WriteByte('+')
+			case rawSafe(c):
+				b.WriteByte(c)
+			default:
+				pct(true)
+			}
+		}
+	}
+	return b.String()
 }
